@@ -241,6 +241,76 @@ pub fn scenarios(thorough: bool) -> Vec<Scenario> {
     v
 }
 
+/// documents with an explicit root identifier are read back through read(Some(root)); every sequence
+/// of up to 3/4 such documents (two roots, shared element ids) on one replica, committing in between or not
+pub fn custom_root_sweep(rep: &mut Report, thorough: bool) {
+    let docs = vec![
+        json!({"_id":"r1","l♭":[x(), y()]}),
+        json!({"_id":"r1","l♭":[y()],"s":"!t"}),
+        json!({"_id":"r2","l♭":[x2()],"o♭":{"_id":"z","v":1}}),
+        json!({"_id":"r2","m♭":[z(), x()]}),
+        json!({"l♭":[x()]}),
+    ];
+    let n = docs.len();
+    let len = if thorough { 4 } else { 3 };
+    let mut seqs: Vec<Vec<usize>> = vec![vec![]];
+    let mut all = vec![];
+    for _ in 0..len {
+        let mut next = vec![];
+        for s in &seqs {
+            for d in 0..n {
+                let mut t = s.clone();
+                t.push(d);
+                next.push(t);
+            }
+        }
+        all.extend(next.iter().cloned());
+        seqs = next;
+    }
+    let mut evals = 0u64;
+    let mut reported = false;
+    for s in &all {
+        for commit_each in [false, true] {
+            let a: std::sync::Arc<std::sync::RwLock<Box<dyn melda::adapter::Adapter>>> = crate::adapter::Store::new().adapter();
+            crate::guard::set_trace("C04 custom roots");
+            let m = melda::melda::Melda::new(a).unwrap();
+            let mut trace = vec![];
+            for &d in s {
+                evals += 1;
+                let doc = docs[d].as_object().unwrap().clone();
+                let root = doc.get("_id").and_then(|v| v.as_str()).map(|s| s.to_string());
+                trace.push(format!("update(D{})", d));
+                let r = crate::guard::call("update", || m.update(doc.clone()).map_err(|e| e.to_string()));
+                let want = expect_tracked(&doc, &[]);
+                let got = match &r {
+                    Ok(Ok(id)) => {
+                        let rid = id.clone();
+                        match crate::guard::call("read", || m.read(Some(&rid)).map_err(|e| e.to_string())) {
+                            Ok(Ok(v)) => json!({"ok": serde_json::Value::Object(v)}),
+                            Ok(Err(e)) => json!({"err": e}),
+                            Err(p) => json!({"panic": p}),
+                        }
+                    }
+                    Ok(Err(e)) => json!({"update_err": e}),
+                    Err(p) => json!({"update_panic": p}),
+                };
+                let id_ok = matches!(&r, Ok(Ok(id)) if Some(id.clone()) == root || (root.is_none() && id == "\u{221A}"));
+                if (got.get("ok") != Some(&want) || !id_ok) && !reported {
+                    reported = true;
+                    rep.violations.push(Violation { property: "C04".into(), signature: "C04:custom-root-read-differs".into(), scenario: "custom-roots".into(), history: vec![],
+                        detail: json!({"input": {"documents": docs, "sequence": trace, "commit_after_each": commit_each}, "expected": want, "read": got, "returned_root": format!("{:?}", r)}) });
+                }
+                if commit_each {
+                    let _ = crate::guard::call("commit", || m.commit(None).map(|_| ()).map_err(|e| e.to_string()));
+                    trace.push("commit".into());
+                }
+            }
+        }
+    }
+    rep.add_u64("evaluations", evals);
+    rep.set("custom_root_sweep", json!({"documents": n, "max_sequence_length": len, "sequences": all.len() * 2, "update_read_checks": evals}));
+}
+
 pub fn run(thorough: bool) {
     let mut rep = Report::new("C04", if thorough { "thorough" } else { "quick" }, "model_checking");
     run_h(&mut rep, RunCfg {
@@ -251,6 +321,7 @@ pub fn run(thorough: bool) {
         max_states: if thorough { 100_000 } else { 3_000 },
         stop_on_violation: false,
     });
+    custom_root_sweep(&mut rep, thorough);
     rep.set("rule", json!("in EVERY distinct state (committed or staged, merged or not, object / array conflicts or not) and for EVERY document D of the menu (array edits, objects moving between arrays, flattened keys appearing / disappearing / changing kind, nested flattened arrays, id-less objects, '!'/'^' prefixed strings and ids, scalars, empty objects): update(D) then read(). If no array descriptor is in conflict the result must equal an independently computed expectation (D with _id added to each tracked object) exactly; otherwise the multiset of tracked objects and their contents must match. Then update(D) again: canonical replica state, stage export and read unchanged. In every state without staging: commit returns None, storage and state unchanged. distinct_nontrivial = distinct read results"));
     rep.assume("well-formed documents: elements of flattened arrays carry unique string _id values not starting with '^'; the root has no _id");
     finalize(&mut rep);
